@@ -2,4 +2,4 @@ From C09 Require Import Model.
 Require Extraction.
 Require Import ExtrOcamlBasic.
 Extraction "model.ml" is_used emitted graph_of idiv_helper imod_helper h_bounds h_deref h_narrow_int
-  op_add op_sub op_mul op_unm op_tdiv nochecks_of nodce_of cflags_of has_flag base_mode vd_effects src_effects vd_wf vardecl_policy CDefault CRelease CNochecks CNodce FWRAPV I8 I16 I32 I64 U8 U16 U32 U64.
+  op_add op_sub op_mul op_unm op_tdiv generic_cc_wraps nochecks_of nodce_of cflags_of has_flag base_mode vd_effects src_effects vd_wf vardecl_policy CDefault CRelease CNochecks CNodce FWRAPV I8 I16 I32 I64 U8 U16 U32 U64.
